@@ -37,7 +37,7 @@ def rule_slices(ctx):
     fams = list(UNIFORM_FAMILIES) + MIXED_FAMILIES
     seen_funcs = set()
     for fam in fams:
-        members = {name: fn for name, fn in tu.funcs.items() if ('_' + fam + '_') in name}
+        members = {name: tu.func(name) for name, fn in tu.funcs.items() if ('_' + fam + '_') in name and fn.get('storageClass') != 'static'}
         anchor(members, 'transformations.c family *_%s_*' % fam)
         seen_funcs |= set(members)
         canon = {}   # (func, kind) -> tree
@@ -74,6 +74,8 @@ def rule_slices(ctx):
                                    'the %s-slice of %s differs from the %s-slice of %s (%s)' % (k, name, k, ref_name, _first_diff(ref, tree)))
     # every transform function belongs to a family (scope fact)
     for name in tu.funcs:
+        if tu.funcs[name].get('storageClass') == 'static':
+            continue            # a file-local helper is part of the public transformation that calls it (it is inlined there)
         if name.startswith('reb_particles_transform_') and name not in seen_funcs:
             raise AnalysisError('R12.1: new transformation %s is in no known family - tell the rule which variants it belongs to' % name)
     ctx.covered('R12.1', 'kind slices (pos/vel/acc projections, kind names neutralised) of the variants of each coordinate map are equal trees',
